@@ -502,7 +502,7 @@ func runC07(tb ev.TB, p c07Prog) ev.Result {
 
 func TestC07(t *testing.T) {
 	c := ev.Get("C07")
-	c.Rule = "rapid generates an entry (arbitrary binary payload incl. invalid UTF-8, valid-UTF-8 log id, 0-6 predecessors and 0-6 references drawn without repetition from a CID pool, default or custom clock id, time over the whole int range with weight on 2^24, 2^31, 2^32, 2^53 and their neighbours, writer 0-3, default/link-key/legacy codec), creates and signs it with CreateEntryWithIO (with the default codec in a fifth of the cases as a writer of format version 1 would: a codec that stamps that version before signing), checks it verifies, then applies one of 40 single-field mutations (incl. keys that are flipped, truncated, extended, garbage or cleared) to a copy and requires Verify to fail. Non-trivial = the mutation touched a list of length >= 2 or the payload has a non-ASCII byte; distinct = distinct program. Payload mutations whose json.Marshal(string(payload)) equals the original's are the known finding C07/payload-json-collision: excluded and counted."
+	c.Rule = "rapid generates an entry (arbitrary binary payload incl. invalid UTF-8, valid-UTF-8 log id, 0-6 predecessors and 0-6 references drawn without repetition from a CID pool, default or custom clock id, time over the whole int range with weight on 2^24, 2^31, 2^32, 2^53 and their neighbours, writer 0-3, default/link-key/legacy codec), creates and signs it with CreateEntryWithIO (with the default codec in a fifth of the cases as a writer of format version 1 would: a codec that stamps that version before signing), checks it verifies, then applies one of 40 single-field mutations (incl. keys that are flipped, truncated, extended, garbage or cleared) to a copy and requires Verify to fail. Non-trivial = the mutation touched a list of length >= 2 or the payload has a non-ASCII byte; distinct = distinct program. Payload mutations whose json.Marshal(string(payload)) equals the original's are the known finding C07/payload-json-collision: excluded and counted. Link mutations include re-coding a link over the same digest (other codec, version 0); whether substituted key bytes denote the same key is decided by the curve library's parser, not by the provider under test."
 	c.Assumptions = []string{"log ids are valid UTF-8 (they are names chosen by the application)", "signing is deterministic RFC 6979 ECDSA over secp256k1 with the harness's fixed keys"}
 	ev.Check(t, "C07", genC07, runC07)
 }
